@@ -12,6 +12,7 @@ Declined: float-level containment (ceil of an inexactly represented quotient), "
 """
 from __future__ import annotations
 
+import ast
 import random
 
 from ..core import sym, symeval
@@ -305,6 +306,16 @@ def run(project: Project, rep, tier: str):
         stf = obj
         # requested = what the setters were asked: verify through coverage of data min/max
         check_state(rep, fit, fit.node, f"after fit(skew={skew}, {len(names)} diagram(s))", stf, req_b, req_p)
+        # GE-FIT: a place that truth-tests None on one visit and a number computed from the data on another takes a
+        # legitimate 0 (minimum birth 0, a point on the diagonal) for 'nothing seen yet'
+        for rec in getattr(I, "truth_kinds", {}).values():
+            if {"none", "data-number"} <= rec["kinds"]:
+                owner = rec["fi"] or fit
+                rep.refuted("GE-FIT", owner, rec["node"],
+                            f"`{ast.unparse(rec['node'])}` is truth-tested while it holds None at first and later a value computed "
+                            f"from the diagrams ({sym.show(rec['example'])[:80]}): an extreme that is exactly 0 counts as 'nothing "
+                            f"seen yet' and is overwritten, so the fitted range misses fitted points and depends on diagram order",
+                            construct=f"{owner.qualname}: truth test of {ast.unparse(rec['node'])}")
         # GE-FIT: geometry changes only through the range setters
         stores = [ev for ev in I.log if ev["kind"] == "attrstore" and ev["fi"] is fit]
         direct = [ev for ev in stores if ev["attr"] in ("_width", "_height", "_resolution", "_bpnts", "_ppnts",
